@@ -403,7 +403,7 @@ func runSEQ(c *Ctx, g *MCG, r *Result, rule string, pkg *ssa.Package, scope PkgS
 					add(f, "mapstore", ord, ins.Pos(), e.concrete(f, m), "a value that may wrap a *sequence is stored into a map", e.mask(ins.Value) != 0)
 				}
 			case *ssa.Return:
-				if !isRoot[f] && f != e.c.W.Fn("jsonata.eval") {
+				if !isRoot[f] && f != pkg.Func("eval") {
 					continue
 				}
 				for _, res := range ins.Results {
